@@ -10,6 +10,7 @@ from . import models
 
 
 DEFAULT_OPAQUE_STR = {'_format', '_ascii2'}
+DEFAULT_OPAQUE_INT = {'_stacklevel_above_module'}
 
 
 class VExt(Value):
@@ -110,6 +111,11 @@ class CallMixin:
                 a = self.res(self.ev(node.args[0]))
                 b = self.res(self.ev(node.args[1]))
                 return VInt(models.str2int(a.t, b.t))
+            if nm == 'intval':
+                v = self.res(self.ev(node.args[0]))
+                if isinstance(v, VOpaque):
+                    return VInt(models.intval(v.t))
+                return VInt(self.flat(v, 'int'))
             if nm == 'valid_utf8':
                 v = self.res(self.ev(node.args[0]))
                 if isinstance(v, VOpaque):
@@ -245,6 +251,8 @@ class CallMixin:
         if fi.name in DEFAULT_OPAQUE_STR and fi.cls is None:
             self.used_assumptions.add('A-FMT: _format()/_ascii2() are total and return an unconstrained string')
             return VStr(z3.String(self.fresh_name('fmt')))
+        if fi.name in DEFAULT_OPAQUE_INT and fi.cls is None:
+            return VInt(z3.Int(self.fresh_name('stacklevel')))
         c = self.callee_contract(fi)
         is_top_entry = getattr(self, '_entering_top', False)
         if c is not None and c != 'inline' and not is_top_entry:
@@ -366,7 +374,13 @@ class CallMixin:
         obj = self.alloc(ObjCell(name, {}, dict(self.class_specs.get(name, {}))))
         new = info.find_method('__new__')
         if new is not None:
-            self.limit(f'class {name} defines __new__', node)
+            # __new__ is executed from its real source with cls bound to the class
+            obj = self.call_function(new, [cls] + list(args), kwargs, node)
+            ro = self.res(obj)
+            init = info.find_method('__init__')
+            if init is not None and isinstance(ro, VPtr):
+                self.call_function(init, [ro] + list(args), kwargs, node)
+            return obj
         init = info.find_method('__init__')
         if init is not None:
             self.call_function(init, [obj] + list(args), kwargs, node)
